@@ -22,6 +22,8 @@ def run(chk):
     from .c10 import r10e
 
     r10e(chk, 'R13.g')
+    r13h(chk)
+    r13j(chk)
     if chk.tier == 'thorough':
         profile_eda(chk, 'R13.f')
 
@@ -309,3 +311,101 @@ def profile_eda(chk, rid):
                 eda_obligations(chk, rid, PROFILES, f'properties[{props}]', name, nfa, False)
             except AnalysisError as e:
                 chk.ob(rid, PROFILES, f'properties[{props}]', f'{name}: analysable', True, f'skipped: {e}', trivial=True)
+
+
+def r13h(chk, rid='R13.h'):
+    chk.rule(rid, 'the validation context of a property, decided by evaluation: Property.validate is evaluated on its syntax tree with a model registry for a property in a style rule, an @page rule, an @media rule, an @font-face rule, a block without rule and a property without block: the value is checked against the @font-face profile inside @font-face and against the default selection everywhere else (the context is read from the live parent chain); the verdict is "valid in the selection", false for an unknown priority; nothing is written')
+    from sa.absint import Evaluator, Obj, Raised, Record
+
+    rel = 'cssutils/css/property.py'
+    m = chk.repo.mod(rel)
+    fn = m.get('Property.validate')
+    K = dict(FONT_FACE_RULE=5, STYLE_RULE=1, PAGE_RULE=6, MEDIA_RULE=4)
+    n = 0
+    # a declaration block learns its rule in two ways: through the parentRule setter, and - from the rule
+    # classes' style setters - by a raw store to _parentRule.  Both are modelled, so that a context cached
+    # by the setter is only as good as the raw stores allow.
+    dm = chk.repo.mod('cssutils/css/cssstyledeclaration.py')
+    from .effects import Effects
+
+    eff = Effects.get(chk.repo)
+    dci = next((c for c in eff.classes.get('CSSStyleDeclaration', []) if c.rel == dm.rel), None)
+    setter = dci.setters.get('parentRule') if dci else None
+    raw_sites = []
+    for rel2, m2 in chk.repo.modules.items():
+        if rel2.startswith('cssutils/css/') and not rel2.endswith('cssvalue.py'):
+            for x in ast.walk(m2.tree):
+                if isinstance(x, ast.Assign) and any(isinstance(t, ast.Attribute) and t.attr == '_parentRule' and not (isinstance(t.value, ast.Name) and t.value.id == 'self') for t in x.targets):
+                    raw_sites.append(f'{rel2.rsplit("/", 1)[-1]}:{m2.qualname_of(x)}')
+
+    class Prof0(Record):
+        def __getattr__(self, a):
+            if a.isupper() or a.startswith('CSS'):
+                return 'FONT-FACE-PROFILE' if a == 'CSS3_FONT_FACE' else a
+            raise AttributeError(a)
+
+    def block(rule, how):
+        p_ = Obj(_parentRule=rule)
+        if how == 'setter' and setter is not None and not isinstance(setter, ast.Lambda):
+            r_ = Evaluator(setter, intrinsics={'cssutils': Record(profile=Prof0())}, module=dm, cls='CSSStyleDeclaration').run(self=p_, **{[a.arg for a in setter.args.args][1]: rule})
+            if isinstance(r_, Raised):
+                raise AnalysisError(f'CSSStyleDeclaration parentRule setter: {r_!r}')
+        p_.parentRule = p_._parentRule
+        return p_
+
+    contexts = []
+    for how in (['setter'] if not raw_sites else ['setter', 'raw store']):
+        for lab, typ, wp in (('a style rule', 1, None), ('an @page rule', 6, None), ('an @media rule', 4, None), ('an @font-face rule', 5, ['FONT-FACE-PROFILE'])):
+            contexts.append((f'in {lab} (block attached through the {how})', block(Obj(type=typ, **K), how), wp))
+        contexts.append((f'in a block without rule ({how})', block(None, how), None))
+    contexts.append(('without block', None, None))
+    for label, parent, want_profiles in contexts:
+        for verdict in ((True, True, ['p']), (True, False, ['other']), (False, False, ['p'])):
+            for prio in ('', 'important', 'bogus'):
+                asked = []
+                class Prof(Record):
+                    def __getattr__(self, a):  # any other profile constant stands for itself
+                        if a.isupper() or a.startswith('CSS'):
+                            return a
+                        raise AttributeError(a)
+
+                prof = Prof(knownNames=['margin'], CSS3_FONT_FACE='FONT-FACE-PROFILE', defaultProfiles=['d'], validateWithProfile=lambda nm, val, profiles=None: (asked.append((nm, val, profiles)), verdict)[1])
+                me = Obj(name='margin', value='2cm', parent=parent, _priority=prio, _log=Record(error=lambda *a, **k: None, warn=lambda *a, **k: None, debug=lambda *a, **k: None), **{'__nametoken': None})
+                before = dict(me.__dict__)
+                got = Evaluator(fn, intrinsics={'cssutils': Record(profile=prof), 'self._log.error': me._log.error, 'self._log.warn': me._log.warn, 'self._log.debug': me._log.debug}, module=m, cls='Property').run(self=me)
+                n += 1
+                want = verdict[0] and verdict[1] and prio in ('', 'important')
+                ok = not isinstance(got, Raised) and asked == [('margin', '2cm', want_profiles)] and bool(got) == want and dict(me.__dict__) == before
+                if not ok or (verdict == (True, True, ['p']) and prio == ''):
+                    chk.ob(rid, rel, 'Property.validate', f'{label}: checked against {want_profiles or "the default selection"}; verdict {want} for registry answer {verdict[:2]} and priority {prio!r}', ok,
+                           f'asked the registry {asked}, result {got!r}' + ('' if dict(me.__dict__) == before else '; the property was changed') + (f' (raw stores to _parentRule: {sorted(set(raw_sites))[:4]})' if 'raw store' in label else ''))
+    chk.extra['validation_context_cases'] = n
+
+
+
+def r13j(chk, rid='R13.j'):
+    chk.rule(rid, 'compiled validators match the whole value, in any letter case, decided by evaluation: Profiles._compile_regexes is evaluated on its syntax tree (LazyRegex modelled by the interpreter\'s re with the pattern and flags it is given) for a keyword list, a pattern with a quantifier and a callable: each compiled validator accepts its keywords in lower, upper and mixed case, rejects a keyword with something in front or behind, and a callable is kept as it is')
+    import re as _re
+
+    from sa.absint import Evaluator, Raised, Record
+
+    m = chk.repo.mod(PROFILES)
+    fn = m.get('Profiles._compile_regexes')
+
+    def custom(v):
+        return v == 'custom'
+
+    table = {'display': 'inline|block|none', 'z': '(?:a|b){1,2}', 'c': custom, 'single': 'auto'}
+    got = Evaluator(fn, intrinsics={'util': Record(LazyRegex=lambda pat, flags=0: _re.compile(pat, flags).match)}, module=m, cls='Profiles').run(self=Record(), dictionary=dict(table))
+    if isinstance(got, Raised) or not isinstance(got, dict) or set(got) != set(table):
+        chk.ob(rid, PROFILES, 'Profiles._compile_regexes', 'returns a validator for every property', False, f'{got!r}')
+        return
+    cases = [('display', 'block', True), ('display', 'BLOCK', True), ('display', 'Block', True), ('display', 'blockx', False), ('display', 'xblock', False), ('display', 'block none', False), ('display', '', False),
+             ('z', 'ab', True), ('z', 'AB', True), ('z', 'aba', False), ('single', 'AUTO', True), ('single', 'auto ', False), ('c', 'custom', True), ('c', 'CUSTOM', False)]
+    for prop, value, want in cases:
+        try:
+            res = bool(got[prop](value))
+        except Exception as e:  # noqa: BLE001
+            res = f'{type(e).__name__}: {e}'
+        chk.ob(rid, PROFILES, 'Profiles._compile_regexes', f'{prop}: {value!r} is ' + ('accepted' if want else 'rejected'), res == want, f'the compiled validator answers {res!r}: the verdict depends on the letter case (or on what surrounds the keyword)')
+    chk.ob(rid, PROFILES, 'Profiles._compile_regexes', 'a callable validator is kept as it is', got['c'] is custom, '')
